@@ -234,7 +234,7 @@ func ginSetStatus(fr *frame, a []Value) {
 }
 
 func init() {
-	for _, n := range []string{"JSON", "Status"} {
+	for _, n := range []string{"JSON", "Status", "String", "Data", "Render", "HTML", "XML", "YAML", "IndentedJSON", "PureJSON", "SecureJSON", "AsciiJSON", "JSONP", "ProtoBuf", "TOML", "Redirect", "DataFromReader"} {
 		n := n
 		reg("(*github.com/gin-gonic/gin.Context)."+n, func(m *Machine, fr *frame, a []Value) Value {
 			m.trace = append(m.trace, Event{Name: "gin." + n, Args: a[1:]})
